@@ -74,6 +74,8 @@ async def reply_listed_once_and_filter_honoured(n: int, id1: bytes, id2: bytes, 
         loc._spas.append(GeckoAsyncSpaDescriptor(prior[i], "spa", ("10.0.0.%d" % i, 10022)))
     requires(listed_ok(loc))
     found0 = loc._has_found_spa
+    started0 = fresh_time("discovery_started")
+    loc._started = started0
     Ev.log = []
     before_ids = list(loc._spa_identifiers)
     before_spas = list(loc._spas)
@@ -97,6 +99,7 @@ async def reply_listed_once_and_filter_honoured(n: int, id1: bytes, id2: bytes, 
     for i in range(n):
         ensures("earlier-entries-untouched", loc._spas[i] is before_spas[i])
     ensures("invariant-preserved", listed_ok(loc))
+    ensures("a-reply-never-restarts-the-discovery-clock", loc._started == started0)
     cover("filtered-out", both(has_filter, not wanted))
     cover("empty-address-string-is-no-address", both(addr_kind == 1, not has_filter, not dup))
     cover("non-ascii-identifier-requested", both(has_filter, wanted, not dup, len(ident) > 1, byte_at(ident, 1) >= 128))
@@ -404,3 +407,21 @@ harness(prop="C15", target="geckolib.driver.async_udp_protocol:GeckoAsyncUdpProt
 harness(prop="C15", target="geckolib.async_tasks:AsyncTasks.cancel_key_tasks", name="every_helper_task_is_cancelled_whatever_else_is_registered",
         bounded="task registries of 0..4 entries (concrete Python list); key and finished-flag of each entry symbolic")(
     _c10.keyed_cancellation_reaches_every_live_task_of_the_domain)
+
+
+@harness(prop="C15", target="geckolib.async_locator:GeckoAsyncLocator.__init__", name="every_discovery_run_starts_with_an_empty_list")
+async def every_discovery_run_starts_with_an_empty_list(ident: bytes, name: bytes):
+    """the manager creates a new locator for every locate phase (reconnects): what an earlier run listed does not make a later
+    run skip -- or list -- anything"""
+    first = GeckoAsyncLocator(AsyncTasks(), record_event, spa_address=None, spa_identifier=None)
+    first._spas = []
+    await first._async_on_discovered(Hello(ident, name.decode("latin1")), ("10.0.0.77", 10022))
+    ensures("first-run-listed-the-spa", both(len(first._spas) == 1, len(first._spa_identifiers) == 1))
+    second = GeckoAsyncLocator(AsyncTasks(), record_event, spa_address=None, spa_identifier=None)
+    ensures("a-new-run-has-seen-nothing-yet", both(len(second._spa_identifiers) == 0, not second._has_found_spa,
+                                                  second._spas is None or len(second._spas) == 0))
+    second._spas = []
+    Ev.log = []
+    await second._async_on_discovered(Hello(ident, name.decode("latin1")), ("10.0.0.77", 10022))
+    ensures("the-same-spa-is-listed-again-by-the-new-run", both(len(second._spas) == 1, second._spas[0].identifier == ident, len(Ev.log) == 1))
+    ensures("runs-do-not-share-their-lists", both(second._spas is not first._spas, second._spa_identifiers is not first._spa_identifiers))
